@@ -282,7 +282,7 @@ pub fn run(ctx: &mut Ctx) {
     for (n, ok) in r9::selftest(false) {
         ctx.selftest(&n, ok);
     }
-    ctx.require(&["annex_kat", "len_sweep", "fixed_r_exact", "free_r", "roundtrip", "ref_made_decrypts", "bitflip_pc_byte", "bitflip_c1", "bitflip_c2", "bitflip_c3", "truncated_inside_c1", "truncated_inside_c3", "truncated_body", "id_changed", "c1_zero_zero", "c1_offcurve_y_plus_1", "c1_offcurve_random", "pc_byte_illegal_valid_tag", "c1_other_point", "c1_coordinate_plus_p_alias", "c3_zeroed", "msg_len=255", "msg_len=1", "id_empty", "encryptor_has_public_key_only", "interleaved_keys_decrypt", "k1_all_zero_retry", "ke=H1(id)_doubling_in_QB", "crafted_valid_c1_decrypts"]);
+    ctx.require(&["annex_kat", "len_sweep", "fixed_r_exact", "free_r", "roundtrip", "ref_made_decrypts", "bitflip_pc_byte", "bitflip_c1", "bitflip_c2", "bitflip_c3", "truncated_inside_c1", "truncated_inside_c3", "truncated_body", "id_changed", "c1_zero_zero", "c1_offcurve_y_plus_1", "c1_offcurve_random", "pc_byte_illegal_valid_tag", "c1_other_point", "c1_coordinate_plus_p_alias", "c3_zeroed", "msg_len=255", "msg_len=1", "id_empty", "encryptor_has_public_key_only", "interleaved_keys_decrypt", "k1_all_zero_retry", "ke=H1(id)_doubling_in_QB", "crafted_valid_c1_decrypts", "long_msg_or_id", "kdf_beyond_255_blocks", "id_beyond_2^16_bits"]);
     let pr = r9::params();
     if ctx.shard == 0 {
         let ke = r9::hexn("0001EDEE3778F441F8DEA3D9FA0ACC4E07EE36C93F9A08618AF4AD85CEDE1C22");
@@ -423,6 +423,34 @@ pub fn run(ctx: &mut Ctx) {
             }
             if rep == 0 && len == 100 {
                 ctx.sample(json!({"encrypt_case": wit(&ke, &id, &msg, Some(&r))}));
+            }
+        }
+    }
+    // --- messages and identities beyond the 256-block / 2^16-bit / 2^16-byte thresholds (KDF counter bytes, SM3 length
+    // field, truncating casts)
+    {
+        let mut pl = ctx.prng("long");
+        let cases: [(usize, usize); 8] = [(8129, 3), (8160, 3), (8161, 5), (8193, 8186), (70001, 4), (33, 8192), (256, 20000), (65536, 70001)];
+        let reps = ctx.n(1, 4);
+        for rep in 0..reps {
+            for (ci, (mlen, idl)) in cases.iter().enumerate() {
+                let sub = pl.next();
+                if !ctx.mine((ci as u64) * 2 + rep + 3) {
+                    continue;
+                }
+                let mut p = Prng::new(sub, "lg");
+                let ke = scalar_for(&mut p, 100);
+                let id = p.bytes(*idl);
+                let msg = p.bytes(*mlen);
+                let r = rand_scalar(&mut p, &(&pr.n - 1u32));
+                ctx.class("long_msg_or_id");
+                if *mlen > 8160 {
+                    ctx.class("kdf_beyond_255_blocks");
+                }
+                if *idl >= 8186 {
+                    ctx.class("id_beyond_2^16_bits");
+                }
+                enc_case(ctx, &ke, &id, &msg, if ci % 2 == 0 { Some(&r) } else { None }, "long");
             }
         }
     }
